@@ -1642,5 +1642,78 @@ theorem takeFocus_requests {fx : Fixes} {t : Tree} {win : Nat} {r : Tree × List
       refine ⟨w', by rw [hce]; exact hw', hf'.trans hf, by rw [hc']; exact hcv, by rw [hc']; exact hs, ?_⟩
       rw [hce, hat, hc']; exact hown
 
+/-! ### the invariants, executably (for the driver's run-time check and the kernel-checked examples) -/
+
+/-- What `Good15` asks of one slot of the store (freed slots included, as in the window engine's `WFp`). -/
+def slotOk (t : Tree) (i : Nat) (w : Win) : Bool :=
+  w.children.all (fun ch => match t.wins[ch]? with | some cw => cw.parent == some i && !cw.isRoot | none => false) &&
+  decide w.children.Nodup && (w.parent != some i) && (!w.isRoot || i == 0) &&
+  (!w.isRoot || (decide (0 < w.rect.lines) && decide (0 < w.rect.cols)))
+
+def good15B (t : Tree) : Bool :=
+  wfB t &&
+  (List.range t.wins.size).all (fun i => match t.wins[i]? with | some w => slotOk t i w | none => true) &&
+  (match t.wins[0]? with
+   | some r => !r.freed && r.isRoot && r.parent.isNone && r.rect.top == 0 && r.rect.left == 0
+   | none => false) &&
+  t.root.damage.all (fun x => decide x.Nonempty) &&
+  (t.root.damage.isEmpty || t.root.needsExpose) &&
+  (!(t.root.needsExpose || t.root.needsRestore) || t.root.needsLater)
+
+theorem good15_of_B {t : Tree} (h : good15B t = true) : Good15 t := by
+  unfold good15B at h
+  simp only [Bool.and_eq_true] at h
+  obtain ⟨⟨⟨⟨⟨hwf, hslots⟩, hroot⟩, hdmg⟩, hflag⟩, hlater⟩ := h
+  have hslot : ∀ (i : Nat) (w : Win), t.wins[i]? = some w → slotOk t i w = true := by
+    intro i w hw
+    have hi : i < t.wins.size := (Array.getElem?_eq_some_iff.mp hw).1
+    have := (List.all_eq_true.mp hslots) i (List.mem_range.mpr hi)
+    rw [hw] at this; exact this
+  have hparts : ∀ (i : Nat) (w : Win), t.wins[i]? = some w →
+      (∀ ch ∈ w.children, ∃ cw, t.wins[ch]? = some cw ∧ cw.parent = some i ∧ cw.isRoot = false) ∧
+      w.children.Nodup ∧ w.parent ≠ some i ∧ (w.isRoot = true → i = 0) ∧
+      (w.isRoot = true → 0 < w.rect.lines ∧ 0 < w.rect.cols) := by
+    intro i w hw
+    have := hslot i w hw
+    unfold slotOk at this
+    simp only [Bool.and_eq_true, List.all_eq_true, decide_eq_true_eq, bne_iff_ne, ne_eq, Bool.or_eq_true,
+      Bool.not_eq_true', beq_iff_eq] at this
+    obtain ⟨⟨⟨⟨h1, h2⟩, h3⟩, h4⟩, h5⟩ := this
+    refine ⟨fun ch hch => ?_, h2, h3, fun hr => ?_, fun hr => ?_⟩
+    · have := h1 ch hch
+      cases hcw : t.wins[ch]? with
+      | none => rw [hcw] at this; simp at this
+      | some cw => rw [hcw] at this; simp at this; exact ⟨cw, rfl, this.1, this.2⟩
+    · rcases h4 with h4 | h4
+      · rw [hr] at h4; cases h4
+      · exact h4
+    · rcases h5 with h5 | h5
+      · rw [hr] at h5; cases h5
+      · exact h5
+  refine { wf := hwf
+           wfp := ⟨fun cur w hw ch hch => (hparts cur w hw).1 ch hch⟩
+           rootWin := ?_
+           onlyRoot := fun x w hw hr => (hparts x w hw).2.2.2.1 hr
+           nodup := fun cur w hw => (hparts cur w hw).2.1
+           noSelf := fun x w hw => (hparts x w hw).2.2.1
+           pos := fun i w hw hr => (hparts i w hw).2.2.2.2 hr
+           nonempty := fun x hx => by
+             have := (List.all_eq_true.mp hdmg) x hx
+             simpa using this
+           flagged := fun hd => by
+             rcases Bool.or_eq_true_iff.mp hflag with h | h
+             · exact absurd (List.isEmpty_iff.mp h) hd
+             · exact h
+           later := fun hp => by
+             rcases Bool.or_eq_true_iff.mp hlater with h | h
+             · rcases hp with hp | hp <;> simp [hp] at h
+             · exact h }
+  cases hr : t.wins[0]? with
+  | none => rw [hr] at hroot; cases hroot
+  | some r =>
+    rw [hr] at hroot
+    simp only [Bool.and_eq_true, Bool.not_eq_true', Option.isNone_iff_eq_none, beq_iff_eq] at hroot
+    exact ⟨⟨r, hr, hroot.1.1.1.1, hroot.1.1.1.2, hroot.1.1.2, hroot.1.2, hroot.2⟩⟩
+
 end WinFocus
 end Tickit
